@@ -5,9 +5,11 @@
                                                keeps the invariant
   * `inv_sane`, `sane_inv`, `inv_iff_sane`     the invariant is `__sane__` + one duplicate-free list
                                                per species
-  * `reorder_perm`, `reorder_inv`, `reorder_rejects`
-                                               a reorder accepted by `__sane__` is a genuine permutation
-                                               of every species list (pigeonhole), occupations unchanged
+  * `reorder_perm`, `reorder_inv`, `reorder_rejects`, `reorder_rejects_length`
+                                               a reorder accepted by the length guard and `__sane__` is a
+                                               genuine permutation of every species list (pigeonhole),
+                                               occupations unchanged; `reorderZip_truncates`: without the
+                                               guard (old source, finding F41) consistency can be lost
   * `poscar_roundtrip`                         POSCAR then POSCAR_occ gives back the very same cell
   * `run_inv`, `reachable_sane`                any history of well-formed ops keeps every cell consistent
 -/
@@ -277,8 +279,8 @@ def reorderOk (clist cmap : List Nat) : Bool :=
     | none => false
     | some j => j < clist.length
 
-theorem reorder_eq (s : Cell) (mapping : List (List Nat)) :
-    reorder s mapping =
+theorem reorderZip_eq (s : Cell) (mapping : List (List Nat)) :
+    reorderZip s mapping =
       if ¬ ((s.chemorder.zip mapping).all fun p => reorderOk p.1 p.2) = true then .error .index
       else if saneB { s with chemorder := (s.chemorder.zip mapping).map fun p => reorderList p.1 p.2 }
         then .ok { s with chemorder := (s.chemorder.zip mapping).map fun p => reorderList p.1 p.2 }
@@ -301,11 +303,12 @@ theorem reorderList_subset (l m : List Nat) (h : reorderOk l m = true) : reorder
   rw [this, getD_of_lt _ _ _ hjl]
   exact List.getElem_mem _
 
-/-- What a successful `reorder` returns. -/
-theorem reorder_ok_shape (s s' : Cell) (mapping : List (List Nat)) (hs : reorder s mapping = .ok s') :
+/-- What a successful (unguarded) `reorderZip` returns. -/
+theorem reorderZip_ok_shape (s s' : Cell) (mapping : List (List Nat))
+    (hs : reorderZip s mapping = .ok s') :
     s' = { s with chemorder := (s.chemorder.zip mapping).map fun p => reorderList p.1 p.2 } ∧
     (∀ p ∈ s.chemorder.zip mapping, reorderOk p.1 p.2 = true) ∧ saneB s' = true := by
-  rw [reorder_eq] at hs
+  rw [reorderZip_eq] at hs
   split at hs
   · cases hs
   rename_i hok
@@ -316,14 +319,15 @@ theorem reorder_ok_shape (s s' : Cell) (mapping : List (List Nat)) (hs : reorder
     simpa [List.all_eq_true] using hok
   · cases hs
 
-/-- `reorder` does not change the occupations, and every new species list is a permutation of the
-    old one — although the source only runs `__sane__`, which does not look for duplicates
-    (pigeonhole: a same-length list drawn from a duplicate-free list that still covers it). -/
-theorem reorder_perm (s s' : Cell) (mapping : List (List Nat)) (h : Inv s)
-    (hlen : s.nchem ≤ mapping.length) (hs : reorder s mapping = .ok s') :
+/-- The unguarded `reorderZip` does not change the occupations, and every new species list is a
+    permutation of the old one PROVIDED there is at least one map per species — although the source
+    only runs `__sane__`, which does not look for duplicates (pigeonhole: a same-length list drawn
+    from a duplicate-free list that still covers it). -/
+theorem reorderZip_perm (s s' : Cell) (mapping : List (List Nat)) (h : Inv s)
+    (hlen : s.nchem ≤ mapping.length) (hs : reorderZip s mapping = .ok s') :
     s'.occ = s.occ ∧ s'.nchem = s.nchem ∧ s'.chemorder.length = s.chemorder.length ∧
     ∀ c, (s'.chemorder.getD c []).Perm (s.chemorder.getD c []) := by
-  obtain ⟨hshape, hok, hsane⟩ := reorder_ok_shape s s' mapping hs
+  obtain ⟨hshape, hok, hsane⟩ := reorderZip_ok_shape s s' mapping hs
   have hl := h.len
   have hlen' : s'.chemorder.length = s.chemorder.length := by
     rw [hshape]; simp only [List.length_map, List.length_zip]; omega
@@ -377,10 +381,33 @@ theorem reorder_perm (s s' : Cell) (mapping : List (List Nat)) (h : Inv s)
       simp [List.getD_eq_getElem?_getD, this]
     rw [e1, e2]
 
-/-- `reorder` keeps a consistent cell consistent (given one map per species). -/
+/-- The guard: a successful `reorder` had exactly one map per species and is `reorderZip`. -/
+theorem reorder_ok (s s' : Cell) (mapping : List (List Nat)) (hs : reorder s mapping = .ok s') :
+    mapping.length = s.chemorder.length ∧ reorderZip s mapping = .ok s' := by
+  unfold reorder at hs
+  split at hs
+  · cases hs
+  · rename_i hl
+    exact ⟨by simpa using hl, hs⟩
+
+/-- `reorder` rejects (ValueError) any mapping without exactly one map per species. -/
+theorem reorder_rejects_length (s : Cell) (mapping : List (List Nat))
+    (h : mapping.length ≠ s.chemorder.length) : reorder s mapping = .error .value := by
+  simp [reorder, h]
+
+/-- `reorder` does not change the occupations, and every new species list is a permutation of the
+    old one: a mapping accepted by the length guard and `__sane__` is a proper permutation. -/
+theorem reorder_perm (s s' : Cell) (mapping : List (List Nat)) (h : Inv s)
+    (hs : reorder s mapping = .ok s') :
+    s'.occ = s.occ ∧ s'.nchem = s.nchem ∧ s'.chemorder.length = s.chemorder.length ∧
+    ∀ c, (s'.chemorder.getD c []).Perm (s.chemorder.getD c []) := by
+  obtain ⟨hl, hz⟩ := reorder_ok s s' mapping hs
+  exact reorderZip_perm s s' mapping h (by rw [hl, h.len]) hz
+
+/-- `reorder` keeps a consistent cell consistent. -/
 theorem reorder_inv (s s' : Cell) (mapping : List (List Nat)) (h : Inv s)
-    (hlen : s.nchem ≤ mapping.length) (hs : reorder s mapping = .ok s') : Inv s' := by
-  obtain ⟨hocc, hn, hl, hperm⟩ := reorder_perm s s' mapping h hlen hs
+    (hs : reorder s mapping = .ok s') : Inv s' := by
+  obtain ⟨hocc, hn, hl, hperm⟩ := reorder_perm s s' mapping h hs
   refine ⟨by rw [hl, hn, h.len], ?_, ?_, ?_⟩
   · intro c ind hc
     rw [(hperm c).mem_iff, hocc]
@@ -396,15 +423,21 @@ theorem reorder_rejects (st : Store) (k : Nat) (mp : List (List Nat)) (e : Err)
     (h : applyOp st (.reorder k mp) = .error e) : (step st (.reorder k mp)).1 = st := by
   simp [step, h]
 
-/-- Without one map per species the source's `reorder` can silently drop empty trailing species
-    lists (zip truncation) and still pass `__sane__`: the hypothesis `nchem ≤ mapping.length` of
-    `reorder_inv` is needed. -/
-example : ∃ s s', Inv s ∧ reorder s [[1, 0]] = .ok s' ∧ ¬ Inv s' := by
+/-- Why the guard is needed (finding F41): without it, the zip truncation silently drops empty
+    trailing species lists and the result still passes `__sane__` — a consistent cell becomes
+    inconsistent (one list per species is lost, that species can never be placed again). -/
+theorem reorderZip_truncates : ∃ s s', Inv s ∧ reorderZip s [[1, 0]] = .ok s' ∧
+    saneB s' = true ∧ ¬ Inv s' := by
   refine ⟨⟨2, [0, 0, -1], [[0, 1], []]⟩, ⟨2, [0, 0, -1], [[1, 0]]⟩,
-    sane_inv' _ (by decide) (by decide) (by decide), by decide, ?_⟩
+    sane_inv' _ (by decide) (by decide) (by decide), by decide, by decide, ?_⟩
   intro h
   have := h.len
   simp at this
+
+/-- … and the guarded `reorder` rejects that very call. -/
+example : reorder ⟨2, [0, 0, -1], [[0, 1], []]⟩ [[1, 0]] = .error .value := by decide
+/-- A mapping with too many maps is rejected as well. -/
+example : reorder ⟨2, [0, 0, -1], [[0, 1], []]⟩ [[1, 0], [], []] = .error .value := by decide
 
 /-- Non-vacuity: a genuine reorder is accepted, a map with a repeated entry is rejected by
     `__sane__` (value error), an out-of-range entry by the index guard. -/
@@ -739,16 +772,15 @@ example : Inv ⟨2, [0, 1, -1, 0], [[3, 0], [1]]⟩ ∧ Inv ⟨2, [1, 1, 0, -1],
 def StoreInv (k n : Nat) (st : Store) : Prop :=
   ∀ s ∈ st, Inv s ∧ s.nchem = k ∧ s.occ.length = n
 
-/-- Well-formed op for cells with `k` species and `n` sites: group operations carry a permutation
-    of the sites, `reorder` carries one map per species.  Everything else is unrestricted
-    (bad slots, sites, species, POSCAR content are all rejected or harmless). -/
-def Op.WF (k n : Nat) : Op → Prop
+/-- Well-formed op for cells with `n` sites: group operations carry a permutation of the sites.
+    Everything else is unrestricted (bad slots, sites, species, reorder maps, POSCAR content are all
+    rejected or harmless). -/
+def Op.WF (n : Nat) : Op → Prop
   | .imul _ m => IsPerm m n
   | .mul _ _ m => IsPerm m n
-  | .reorder _ mp => k ≤ mp.length
   | _ => True
 
-instance (k n : Nat) (op : Op) : Decidable (op.WF k n) := by
+instance (n : Nat) (op : Op) : Decidable (op.WF n) := by
   cases op <;> simp only [Op.WF] <;> infer_instance
 
 theorem lookup_ok (st : Store) (a : Nat) (s : Cell)
@@ -769,7 +801,7 @@ theorem storeInv_set {k n : Nat} {st : Store} (h : StoreInv k n st) (i : Nat) (s
   · subst h1; exact hs
 
 theorem applyOp_inv (k n : Nat) (st st' : Store) (op : Op) (h : StoreInv k n st)
-    (hw : op.WF k n) (hs : applyOp st op = .ok st') : StoreInv k n st' := by
+    (hw : op.WF n) (hs : applyOp st op = .ok st') : StoreInv k n st' := by
   cases op with
   | setocc a i c =>
     simp only [applyOp, bind, Except.bind, pure, Except.pure] at hs
@@ -825,9 +857,8 @@ theorem applyOp_inv (k n : Nat) (st st' : Store) (op : Op) (h : StoreInv k n st)
     rename_i s1 h1
     cases hs
     obtain ⟨hi, hn, hlen⟩ := h s (lookup_ok st a s hl)
-    have hw' : s.nchem ≤ mp.length := by rw [hn]; exact hw
-    have hp := reorder_perm s s1 mp hi hw' h1
-    exact storeInv_set h a s1 ⟨reorder_inv s s1 mp hi hw' h1, by rw [hp.2.1]; exact hn,
+    have hp := reorder_perm s s1 mp hi h1
+    exact storeInv_set h a s1 ⟨reorder_inv s s1 mp hi h1, by rw [hp.2.1]; exact hn,
       by rw [hp.1]; exact hlen⟩
   | copy a b =>
     simp only [applyOp, bind, Except.bind, pure, Except.pure] at hs
@@ -857,7 +888,7 @@ theorem applyOp_inv (k n : Nat) (st st' : Store) (op : Op) (h : StoreInv k n st)
     have r1 := setoccMany_inv _ t0 t1 r0.1 h1
     exact storeInv_set h b t1 ⟨r1.1, by omega, by omega⟩
 
-theorem step_inv (k n : Nat) (st : Store) (op : Op) (h : StoreInv k n st) (hw : op.WF k n) :
+theorem step_inv (k n : Nat) (st : Store) (op : Op) (h : StoreInv k n st) (hw : op.WF n) :
     StoreInv k n (step st op).1 := by
   unfold step
   split
@@ -866,7 +897,7 @@ theorem step_inv (k n : Nat) (st : Store) (op : Op) (h : StoreInv k n st) (hw : 
 
 /-- Any history of well-formed ops from any consistent store stays consistent. -/
 theorem run_inv (k n : Nat) (ops : List Op) (st : Store) (h : StoreInv k n st)
-    (hw : ∀ op ∈ ops, op.WF k n) : StoreInv k n (run st ops) := by
+    (hw : ∀ op ∈ ops, op.WF n) : StoreInv k n (run st ops) := by
   induction ops generalizing st with
   | nil => exact h
   | cons op ops ih =>
@@ -880,7 +911,7 @@ theorem init_storeInv (m k n : Nat) : StoreInv k n (List.replicate m (Cell.empty
   exact ⟨empty_inv k n, rfl, by simp [Cell.empty]⟩
 
 /-- Every cell of every store reachable from the initial store passes the source's `__sane__`. -/
-theorem reachable_sane (m k n : Nat) (ops : List Op) (hw : ∀ op ∈ ops, op.WF k n) :
+theorem reachable_sane (m k n : Nat) (ops : List Op) (hw : ∀ op ∈ ops, op.WF n) :
     ∀ s ∈ run (List.replicate m (Cell.empty k n)) ops, saneB s = true := by
   intro s hs
   exact inv_sane s (run_inv k n ops _ (init_storeInv m k n) hw s hs).1
@@ -889,10 +920,10 @@ theorem reachable_sane (m k n : Nat) (ops : List Op) (hw : ∀ op ∈ ops, op.WF
     really changes the store. -/
 def exampleOps : List Op :=
   [.setocc 0 0 0, .setocc 0 3 0, .setocc 0 1 1, .setocc 0 2 5, .fill 1 1 [0, 1], .imul 0 [1, 2, 3, 0],
-   .mul 0 1 [3, 2, 1, 0], .reorder 0 [[1, 0], [0]], .reorder 0 [[0, 0], [0]], .copy 1 2, .poscar 0 2,
+   .mul 0 1 [3, 2, 1, 0], .reorder 0 [[1, 0], [0]], .reorder 0 [[0, 0], [0]], .reorder 0 [[1, 0]], .copy 1 2, .poscar 0 2,
    .setocc 7 0 0]
 
-example : ∀ op ∈ exampleOps, op.WF 2 4 := by decide
+example : ∀ op ∈ exampleOps, op.WF 4 := by decide
 example : run (List.replicate 3 (Cell.empty 2 4)) exampleOps
     = [⟨2, [0, 0, 1, -1], [[0, 1], [2]]⟩, ⟨2, [-1, 1, 0, 0], [[2, 3], [1]]⟩,
        ⟨2, [0, 0, 1, -1], [[0, 1], [2]]⟩] := by decide
